@@ -43,7 +43,8 @@ func init() {
 			"R6: the lease renewal writes only by CasByVersion (it never re-creates a record: ErrNotExist also means the holder unlocked). R7: an attempt that gave the token back reports failure. " +
 			"W1/W2: in the in-memory store every mutation notifies the key's waiters and the waiter's check and registration are one critical section (no lost wake-up at the storage level). R8: on every path from the return of the storage wait to the next Create the shutdown channel is tested and found open (paths enumerated with phi operands resolved per path). W7: a waiter registers again on its entry only after the previous registration was withdrawn or consumed by a notification. R9: an attempt resets the held flag before it puts the local token back (in the other order a goroutine sharing the Locker takes the token while the flag still reads held, fails on the flag and the token is lost). " +
 			"R10: on no path from the success outcome of Storage.Create does an attempt reach a failing exit without deleting the record it has created (a refused attempt that leaves its record behind keeps every other Locker out for a lease although nobody holds the lock). " +
-			"R10 also: a clean-up Delete on such a path does not count when it runs under a context the path has just found ended (ctx.Err() != nil; a storage that honours the context refuses it). R11: between the return of the local wait (a select over the token and ctx.Done(): with an ended context it may still take the token) and every success exit the caller's context is looked at again - a ctx.Err() found nil, or a Storage.Create under that context while the in-memory Create is shown to refuse an ended context. R12: a token helper that fails after it received the token puts it back, except on paths that found the shutdown channel closed (assigned only at construction; tested directly or through a predicate whose true implies closed) - any other refusal state can be called off and the Locker would have lost its token for good.",
+			"R10 also: a clean-up Delete on such a path does not count when it runs under a context the path has just found ended (ctx.Err() != nil; a storage that honours the context refuses it). R11: between the return of the local wait (a select over the token and ctx.Done(): with an ended context it may still take the token) and every success exit the caller's context is looked at again - a ctx.Err() found nil, or a Storage.Create under that context while the in-memory Create is shown to refuse an ended context. R12: a token helper that fails after it received the token puts it back, except on paths that found the shutdown channel closed (assigned only at construction; tested directly or through a predicate whose true implies closed) - any other refusal state can be called off and the Locker would have lost its token for good. " +
+			"W8: from the Done() case of the caller's context (or of a context derived from it) the parked in-memory waiter does not go back to park again unless the path found the caller's own context alive - otherwise an ended context does not bring the storage wait, and so LockWithCtx, back.",
 		NotDecided: "absence of lost wake-ups over all schedules as such; fairness.",
 	})
 	register(&Check{
@@ -59,7 +60,8 @@ func init() {
 			"L12: a storage wait that runs under a context the library derived itself (own deadline or cancellation) never decides the attempt: behind it the attempt fails only after re-reading the caller's context and finding it ended, after seeing the shutdown, or on a later Create - otherwise a waiter whose own context is alive gives up when the dead holder's record is about to lapse instead of acquiring. " +
 			"L13: a run of the renewal (the scheduled function and the routine) returns without having attempted the compare-and-set or armed a later attempt only on a path that has found the tenure over (the held flag read and clear) - not because the provider was shut down: Shutdown() does not unlock, the holder's record would lapse under it. " +
 			"L14: the version a renewal compare-and-sets and re-arms with travels with the attempt (parameter / captured variable of the scheduled function); it is never read from a field of the Locker object, which outlives the tenure and is shared with a late renewal of the previous tenure (the renewal routine is also resolved when the scheduled function is a function value bound once and kept in a field). " +
-			"L2/L3 also: when the lease can be changed after construction (a store outside the constructor), the period of the armed renewal and the ExpiresAt of the record write it follows derive from ONE read of the lease (the lease is a time.Duration field, or an integer word read atomically / through an accessor). L13 also accepts a word that Unlock sets and every way of taking the local token resets (see C01.L5).",
+			"L2/L3 also: when the lease can be changed after construction (a store outside the constructor), the period of the armed renewal and the ExpiresAt of the record write it follows derive from ONE read of the lease (the lease is a time.Duration field, or an integer word read atomically / through an accessor). L13 also accepts a word that Unlock sets and every way of taking the local token resets (see C01.L5). " +
+			"L15: Storage.Delete (by key) is issued only where the Locker is known to own the record - behind its held-flag compare-and-swap or behind the success edge of its own Create, directly or at every call site of the private helper that deletes; a Delete behind a failed Create removes the holder's record and the lease is not kept.",
 		NotDecided: "every timing statement ('within about one lease period'), clock behaviour.",
 	})
 }
@@ -726,6 +728,10 @@ func runC01(c *Ctx) {
 	// renewal then meets a conflict and stops: the record lapses under the holder
 	c.inmemFreshVersions(im, "C01.S3")
 	c.idGenerator("C01.S3")
+	// S4: the lock record is not dropped while its (renewed) lease runs: a record leaves the table only on the expired edge
+	// of an expiry decision taken on it under the lock, or by Delete (the rule of C06.R9) - a live lock record purged early lets
+	// a second locker Create it: two holders
+	c.inmemDeleteExamined(im, "C01.S4")
 	// T: the lease timers. Unlock cancels the timer object it finds in the Locker's slot; that this can only ever be a
 	// timer armed for this Locker (and, once fired, a dead object) is the timer package's index/cancel discipline and its
 	// "Call hands out a fresh object" rule (C12): a recycled future makes a late Cancel hit the live renewal timer of
@@ -1051,6 +1057,7 @@ func runC04(c *Ctx) {
 	c.inmemRegistrationBalance(im, "C04.W7")
 	c.contextObservedAfterLocalWait(r, im, "C04.R11")
 	c.tokenKeptOnlyAfterShutdown(r, "C04.R12")
+	c.waiterReturnsOnEndedContext(im, "C04.W8")
 }
 
 // acquiringFns returns the locker functions that contain the Create retry logic.
@@ -1201,6 +1208,7 @@ func runC05(c *Ctx) {
 	c.renewalAttemptsUnlessTenureOver(r, "C05.L13")
 	c.renewalVersionPerTenure(r, "C05.L14")
 	c.periodFromWrittenLease(r, "C05.L2", "C05.L3")
+	c.deleteOnlyAsHolder(r, "C05.L15")
 
 	// L9: a renewal that is in flight while the holder unlocks arms nothing. Unlock can cancel only the timer it finds in
 	// the slot; a renewal whose timer has already fired arms its successor after that. The renewal therefore has to look
